@@ -7,6 +7,7 @@ pub fn dispatch(kind: &str, a: &[&str]) -> Option<String> {
     match (kind, a) {
         ("de.model.text", [path, enc, shape, h, _aux]) => crate::fams::fam_de::dispatch("de.text", &[path, enc, shape, h]),
         ("de.hint", _) => dispatch_hint(kind, a),
+        ("de.hint.model", _) => dispatch_hint_model(kind, a),
         _ => None,
     }
 }
@@ -202,6 +203,48 @@ pub fn dispatch_hint(kind: &str, a: &[&str]) -> Option<String> {
                 Ok(x) => x.0,
                 Err(e) => crate::fams::fam_de::err_class(&e),
             })
+        }
+        _ => None,
+    }
+}
+
+// [a_c02] de.hint.model <cls> <enc> <hint> <hex> <aux>: the implementation side of the model kind of
+// ocaml/fam_tde.ml -- `de.hint` through the slice path (cls = tape) or a reader with the default buffer
+// (cls = stream), reduced to what ONE deserializer step decides: the primitive visit with its payload, or the
+// kind of the compound visit.
+fn reduce_hint(out: &str) -> String {
+    let rest = match out.strip_prefix("v=") {
+        Some(r) => r,
+        None => return out.to_string(),
+    };
+    // the record of v: up to its matching parenthesis
+    let mut depth = 0usize;
+    let mut end = rest.len();
+    for (i, c) in rest.char_indices() {
+        if c == '(' {
+            depth += 1;
+        } else if c == ')' {
+            depth -= 1;
+            if depth == 0 {
+                end = i + 1;
+                break;
+            }
+        }
+    }
+    let rec = &rest[..end];
+    for head in ["some", "newtype", "seq", "map", "enum"] {
+        if rec.starts_with(&format!("({} ", head)) || rec == format!("({})", head) {
+            return format!("({})", head);
+        }
+    }
+    rec.to_string()
+}
+
+pub fn dispatch_hint_model(kind: &str, a: &[&str]) -> Option<String> {
+    match (kind, a) {
+        ("de.hint.model", [cls, enc, hint, h, _aux]) => {
+            let path = if *cls == "tape" { "slice" } else { "reader:32768:-" };
+            dispatch_hint("de.hint", &[path, enc, hint, h]).map(|o| reduce_hint(&o))
         }
         _ => None,
     }
